@@ -647,4 +647,124 @@ theorem parseRun_render (x : JName) (wf : WellFormed x) : parseRun x.render = so
   unfold parseRun
   rw [findLast_prefix fqid _ _ hfl]
 
+
+/-! ## getFork -/
+
+theorem findName_sound : ∀ (names : List Bytes) (index : Bytes) (j : Nat),
+    findName names index = some j → names[j]? = some index ∧ index ≠ [] := by
+  intro names
+  induction names with
+  | nil => intro _ _ h; simp [findName] at h
+  | cons n rest ih =>
+    intro index j h
+    simp only [findName] at h
+    by_cases hm : nameMatches n index = true
+    · simp only [hm, if_true, Option.some.injEq] at h
+      subst h
+      simp only [nameMatches, Bool.and_eq_true, Bool.not_eq_true', beq_iff_eq] at hm
+      obtain ⟨hne, heq⟩ := hm
+      subst heq
+      exact ⟨rfl, by intro h; subst h; simp at hne⟩
+    · have hm' : nameMatches n index = false := by simpa using hm
+      simp only [hm', Bool.false_eq_true, if_false] at h
+      cases hr : findName rest index with
+      | none => rw [hr] at h; simp at h
+      | some k =>
+        rw [hr] at h
+        have : j = k + 1 := by simpa using h.symm
+        subst this
+        simpa using ih index k hr
+
+theorem findName_complete : ∀ (names : List Bytes) (i : Nat) (n : Bytes),
+    names.Nodup → names[i]? = some n → n ≠ [] → findName names n = some i := by
+  intro names
+  induction names with
+  | nil => intro _ _ _ h; simp at h
+  | cons h t ih =>
+    intro i n hnd hi hne
+    simp only [findName]
+    cases i with
+    | zero =>
+      have : h = n := by simpa using hi
+      subst this
+      have : nameMatches h h = true := by
+        simp only [nameMatches, Bool.and_eq_true, Bool.not_eq_true', beq_self_eq_true, and_true]
+        cases h <;> simp_all
+      simp [this]
+    | succ k =>
+      have hk : t[k]? = some n := by simpa using hi
+      have hmem : n ∈ t := List.mem_of_getElem? hk
+      have hnd' := List.nodup_cons.mp hnd
+      have hneq : h ≠ n := fun e => hnd'.1 (e ▸ hmem)
+      have : nameMatches h n = false := by
+        simp only [nameMatches, Bool.and_eq_false_iff, beq_eq_false_iff_ne]
+        exact Or.inr hneq
+      simp only [this, Bool.false_eq_true, if_false, ih k n hnd'.2 hk hne, Option.map_some]
+
+theorem getForkNew_sound (names : List Bytes) (index : Bytes) (j : Nat)
+    (h : getForkNew names index = some j) : names[j]? = some index ∧ index ≠ [] := by
+  unfold getForkNew at h
+  cases hn : numericIndex names index with
+  | none => rw [hn] at h; exact findName_sound names index j h
+  | some k =>
+    rw [hn] at h
+    simp only at h
+    by_cases hm : nameMatches (names.getD k []) index = true
+    · simp only [hm, if_true, Option.some.injEq] at h
+      subst h
+      simp only [nameMatches, Bool.and_eq_true, Bool.not_eq_true', beq_iff_eq] at hm
+      obtain ⟨hne, heq⟩ := hm
+      have hidx : index ≠ [] := by intro e; rw [e] at heq; rw [heq] at hne; simp at hne
+      refine ⟨?_, hidx⟩
+      cases hg : names[k]? with
+      | none => simp [List.getD, hg] at heq; exact absurd heq hidx
+      | some v => simp [List.getD, hg] at heq; rw [heq]
+    · have hm' : nameMatches (names.getD k []) index = false := by simpa using hm
+      simp only [hm', Bool.false_eq_true, if_false] at h
+      exact findName_sound names index j h
+
+theorem getForkNew_routes (names : List Bytes) (i : Nat) (n : Bytes)
+    (hnd : names.Nodup) (hi : names[i]? = some n) (hne : n ≠ []) :
+    getForkNew names n = some i := by
+  have hc := findName_complete names i n hnd hi hne
+  unfold getForkNew
+  cases hn : numericIndex names n with
+  | none => simpa using hc
+  | some k =>
+    simp only
+    by_cases hm : nameMatches (names.getD k []) n = true
+    · simp only [hm, if_true, Option.some.injEq]
+      -- position k carries the name n as well, so k = i
+      have hk : names[k]? = some n := by
+        simp only [nameMatches, Bool.and_eq_true, Bool.not_eq_true', beq_iff_eq] at hm
+        obtain ⟨_, heq⟩ := hm
+        cases hg : names[k]? with
+        | none => simp [List.getD, hg] at heq; exact absurd heq hne
+        | some v => simp [List.getD, hg] at heq; rw [heq]
+      have := findName_complete names k n hnd hk hne
+      rw [hc] at this
+      exact (Option.some.inj this).symm
+    · have hm' : nameMatches (names.getD k []) n = false := by simpa using hm
+      simp only [hm', Bool.false_eq_true, if_false]
+      exact hc
+
+theorem journalEnc_append (pairs : Pairs) (a b : Bytes) :
+    journalEnc pairs (a ++ b) = journalEnc pairs a ++ journalEnc pairs b := by
+  induction a with
+  | nil => rfl
+  | cons c r ih => simp [journalEnc, ih, List.append_assoc]
+
+theorem nodup_map_journalEnc {pairs : Pairs} (ht : TablePct pairs = true) (ts : List Bytes)
+    (h : ts.Nodup) : (ts.map (journalEnc pairs)).Nodup := by
+  induction ts with
+  | nil => simp
+  | cons t rest ih =>
+    have h' := List.nodup_cons.mp h
+    refine List.nodup_cons.mpr ⟨?_, ih h'.2⟩
+    intro hm
+    obtain ⟨u, hu, he⟩ := List.mem_map.mp hm
+    have := journalEnc_inj ht he
+    subst this
+    exact h'.1 hu
+
 end Martian.ForkName
